@@ -260,6 +260,47 @@ func runC33(c *eng.Ctx) {
 		})
 	}
 	c.Check("R4", "one-decrement", fw.Pos(), nDec == 1, "there is exactly one decrement per forwarded pair", fmt.Sprint(nDec))
+	// each goroutine owns its pair: a variable it captures is not one that the
+	// accept loop overwrites on its next round (a cell declared outside the loop
+	// and assigned inside it would be read by the goroutine only when scheduled —
+	// possibly after the next pair was accepted)
+	nOwn := 0
+	eng.EachInstr(fw, func(i ssa.Instruction) {
+		g, ok := i.(*ssa.Go)
+		if !ok {
+			return
+		}
+		mc, ok := g.Call.Value.(*ssa.MakeClosure)
+		if !ok {
+			return
+		}
+		nOwn++
+		var loop *eng.LoopOf
+		for _, b := range fw.Blocks {
+			if l := eng.FindLoop(b); l != nil && l.Body[g.Block()] {
+				loop = l
+			}
+		}
+		var shared []string
+		if loop != nil {
+			for _, bnd := range mc.Bindings {
+				al, ok := bnd.(*ssa.Alloc)
+				if !ok || loop.Body[al.Block()] {
+					continue
+				}
+				for _, ref := range *al.Referrers() {
+					if st, ok := ref.(*ssa.Store); ok && st.Addr == ssa.Value(al) && loop.Body[st.Block()] {
+						shared = append(shared, al.Comment)
+						break
+					}
+				}
+			}
+		}
+		c.Check("R4", "goroutine-owns-its-pair", g.Pos(), len(shared) == 0, "no variable captured by the per-connection goroutine is reassigned by a later round of the accept loop", strings.Join(shared, ","))
+	})
+	if nOwn == 0 {
+		c.Problem("R4", "no per-connection goroutine found in forward")
+	}
 	// arguments of Open
 	c.Floor("R4", 6)
 }
